@@ -182,8 +182,8 @@ Print Assumptions keys_premise_satisfiable.
 (* "purpose and coin type fixed by the standard and the coin": every (hierarchy, coin) row the
    level automaton is instantiated with -- regenerated from the source on every run -- carries the
    coin type of the committed registry snapshot (Lemmas/Registry.v). *)
-From BU Require Lemmas.Bip44Registry.
+From BU Require Lemmas.Bip44Registry Model.Bip44RegistryIdx.
 Theorem coin_types_are_the_registry_ones :
-  forall r, In r Gen.Bip44Params.coin_rows -> Bip44Registry.row_matches_registry r = true.
+  forall r, In r Gen.Bip44Params.coin_rows -> Bip44RegistryIdx.row_matches_registry r = true.
 Proof. exact Bip44Registry.coin_row_registry. Qed.
 Print Assumptions coin_types_are_the_registry_ones.
